@@ -131,6 +131,19 @@ def run(p: Program, rep: Report, tier: str) -> None:
                         rep.violation("R20.4", construct(cb, text="eof while more_body"), where(cb), "asgi: end of body is signalled although more_body is true")
                     elif not eofs and more_false and not more_true:
                         rep.violation("R20.4", construct(cb, text="no eof on final body"), where(cb), "asgi: the final body message does not end the relayed body")
+                elif any(t and f[0] == "cmp" and f[1] == "Eq" and f[3] == ("const", "http.response.zerocopysend") for f, t in pa.facts):
+                    # the zero-copy variant of a body message: its bytes are read from message["file"]; same end-of-body rule
+                    reads_fd = any(e.kind == "call" and "os.read" in show(e.a) + show(e.b) for e in pa.events) or any("os.read" in show(e.b) for e in pa.events if e.kind == "call")
+                    more_false = any((not t) and "more_body" in show(f) for f, t in pa.facts)
+                    more_true = any(t and "more_body" in show(f) for f, t in pa.facts)
+                    if pushes and not reads_fd:
+                        rep.violation("R20.4", construct(cb, text="zerocopysend relayed without reading the file"), where(cb), "asgi: a zero-copy send message is relayed without reading the bytes of its file descriptor")
+                    elif eofs and not more_false:
+                        rep.violation("R20.4", construct(cb, text="eof while more_body"), where(cb), "asgi: end of body is signalled although more_body is true")
+                    elif not eofs and more_false and not more_true:
+                        rep.violation("R20.4", construct(cb, text="no eof on final body"), where(cb), "asgi: the final zero-copy message does not end the relayed body")
+                    else:
+                        rep.ok("R20.4", "asgi: a zero-copy send message is relayed by reading its file descriptor; EOF exactly when more_body is false")
                 elif pushes or eofs:
                     rep.violation("R20.4", construct(cb, text="push on non-body message"), where(cb), "asgi: something is pushed to the body on a non-body message")
             if pushed and eof:
@@ -211,6 +224,19 @@ def run(p: Program, rep: Report, tier: str) -> None:
     else:
         rep.violation("R20.3", construct(en, text=f"yields {ys}"), where(en), "the forced first chunk is not re-emitted first")
 
+    # an application may legally return an EMPTY iterable (204, 304, a HEAD answer): forcing the first chunk must not turn
+    # that into StopIteration (inside the middleware's generator: RuntimeError) - next() needs a default or a handler
+    from .stream_common import _handlers_around
+    nexts = [c for c in calls_in(en, deep=False) if (isinstance(c.func, ast.Name) and c.func.id == "next") or (isinstance(c.func, ast.Attribute) and c.func.attr == "__next__")]
+    for c in nexts:
+        has_default = isinstance(c.func, ast.Name) and len(c.args) >= 2
+        caught = any(h.type is None or any(nm in ast.unparse(h.type) for nm in ("StopIteration", "Exception", "BaseException")) for h in _handlers_around(c, en))
+        if has_default or caught:
+            rep.ok("R20.3", "forcing the first chunk tolerates an empty body (StopIteration handled)")
+        else:
+            rep.violation("R20.3", construct(en, text="next() of a possibly empty body"), where(en, c),
+                          "ensure_next advances the inner application's body with next() and lets StopIteration escape: an inner application that returns an empty iterable (204/304/HEAD) makes the "
+                          "wrapped application raise RuntimeError('generator raised StopIteration') while the bare application answers normally")
     # ---------------------------------------------------------------- R20.2 / R20.5 wrappers
     for side in ("wsgi", "asgi"):
         mw = p.module(f"baize.{side}.middleware").functions.get("middleware")
@@ -355,8 +381,41 @@ def run(p: Program, rep: Report, tier: str) -> None:
             else:
                 rep.violation("R20.8", construct(fn_, text=cons), where(fn_, node), msg)
     rep.require_instances("R20.8", 2)
+
+    # ---------------------------------------------------------------- R20.9 the ASGI capture understands every response message the package sends
+    # (exhaustiveness): every "http.response.*" message type that baize.asgi itself can emit must have a branch in the
+    # capturing send() of from_app; a type that is ignored (the zero-copy send of FileResponse) silently loses that part of the body
+    emitted = {}
+    for f_ in p.all_functions():
+        if not f_.module.name.startswith("baize.asgi"):
+            continue
+        for n in ast.walk(f_.node):
+            if isinstance(n, ast.Dict):
+                for k, v in zip(n.keys, n.values):
+                    if isinstance(k, ast.Constant) and k.value == "type" and isinstance(v, ast.Constant) and isinstance(v.value, str) and v.value.startswith("http.response."):
+                        emitted.setdefault(v.value, (f_, n))
+    cap = afa.nested.get("send")
+    handled = set()
+    if cap is not None:
+        for n in ast.walk(cap.node):
+            if isinstance(n, ast.Compare) and len(n.ops) == 1 and isinstance(n.ops[0], (ast.Eq, ast.In)):
+                for x in [n.left] + n.comparators:
+                    for c_ in ast.walk(x):
+                        if isinstance(c_, ast.Constant) and isinstance(c_.value, str) and c_.value.startswith("http.response."):
+                            handled.add(c_.value)
+    if cap is None or not emitted:
+        rep.undecide("R20.9", "capture callback or emitted message types not found")
+    else:
+        for t_, (f_, n) in sorted(emitted.items()):
+            if t_ in handled:
+                rep.ok("R20.9", f"asgi capture handles {t_!r} (emitted by {f_.fq})")
+            else:
+                rep.violation("R20.9", construct(cap, text=f"unhandled message type {t_}"), where(cap),
+                              f"asgi: {f_.fq} can send a {t_!r} message but the capturing send() of NextResponse.from_app has no branch for it: behind a middleware that part of the "
+                              "response (the file content, on a server with the zero-copy send extension) is dropped")
+    rep.require_instances("R20.9", 3)
     rep.require_instances("R20.1", 1)
     rep.require_instances("R20.2", 8)
-    rep.require_instances("R20.3", 2)
+    rep.require_instances("R20.3", 3)
     rep.require_instances("R20.4", 6)
     rep.require_instances("R20.5", 8)
